@@ -26,6 +26,11 @@ fn main() {
             }
         }
         "check" => cmd_check(&args[2..]),
+        "export-seeds" => cmd_export(&args[2..]),
+        "max-tape" => {
+            let Some(p) = args.get(2).and_then(|id| ohv::find_prop(id)) else { usage() };
+            println!("{}", p.max_tape.1);
+        }
         "replay" => cmd_replay(&args[2..]),
         _ => usage(),
     }
@@ -150,6 +155,15 @@ fn cmd_check(args: &[String]) {
     } else {
         run_corpus(prop, o.tier, &vd, &known)
     };
+    if let Ok(extra) = std::env::var("OHV_EXTRA_TAPE") {
+        if let Some(words) = read_tape_file(std::path::Path::new(&extra)) {
+            if stats.failure.is_none() {
+                if let Some(f) = shrink_failing_tape(prop, o.tier, &known, words, "libFuzzer campaign") {
+                    stats.failure = Some(f);
+                }
+            }
+        }
+    }
     if stats.failure.is_none() && stats.harness_error.is_none() {
         let cfg = RunConfig {
             tier: o.tier,
@@ -331,6 +345,35 @@ fn cmd_replay(args: &[String]) {
         println!("VIOLATION property={} replay={}", prop.id, path.display());
     }
     std::process::exit(code);
+}
+
+/// write corpus tapes and `n` generated tapes as libFuzzer seed files (2 bytes per word)
+fn cmd_export(args: &[String]) {
+    use proptest::strategy::{Strategy, ValueTree};
+    use proptest::test_runner::{Config, RngAlgorithm, TestRng, TestRunner};
+    if args.len() < 3 {
+        usage();
+    }
+    let Some(prop) = ohv::find_prop(&args[0]) else { usage() };
+    let dir = PathBuf::from(&args[1]);
+    let n: usize = args[2].parse().unwrap_or(64);
+    let _ = std::fs::create_dir_all(&dir);
+    let mut k = 0;
+    for f in corpus_files(&verif_dir(), prop.id) {
+        let _ = std::fs::write(dir.join(format!("corpus-{k}")), ohv::tape::tape_to_bytes(&f.words));
+        k += 1;
+    }
+    let seed: u64 = std::env::var("VERIF_SEED").ok().and_then(|s| s.parse::<i64>().ok()).map(|x| x as u64).unwrap_or(0);
+    let mut bytes = [0u8; 32];
+    bytes[..8].copy_from_slice(&hash64(&(seed, prop.id, "export")).to_le_bytes());
+    let mut runner = TestRunner::new_with_rng(Config::default(), TestRng::from_seed(RngAlgorithm::ChaCha, &bytes));
+    let strat = proptest::collection::vec(proptest::num::u32::ANY, 0..=prop.max_tape.1);
+    for i in 0..n {
+        if let Ok(t) = strat.new_tree(&mut runner) {
+            let _ = std::fs::write(dir.join(format!("gen-{i}")), ohv::tape::tape_to_bytes(&t.current()));
+        }
+    }
+    println!("exported {} seeds to {}", k + n, dir.display());
 }
 
 fn build_name() -> &'static str {
